@@ -64,7 +64,7 @@ Print Assumptions C04_hash_ignores_programs.
 
 Theorem C04_serialization_splits : forall t ps,
   encode_tx (set_programs t ps) = encode_unsigned t ++ encode_programs ps.
-Proof. intros t ps. rewrite encode_tx_split, unsigned_ignores_programs. destruct t; reflexivity. Qed.
+Proof. exact serialization_splits. Qed.
 Print Assumptions C04_serialization_splits.
 
 (* Headers and blocks (arbitrary transaction lists). *)
